@@ -99,8 +99,8 @@ func (e *ExecutionConfig) ProposerConfig(_ context.Context,
 ) {
 	// Try proposer-specific config.
 	proposerConfig, exists := e.ProposerConfigs[pubkey]
-	if !exists {
-		// Try default config.
+	if !exists || proposerConfig == nil {
+		// Try default config (an entry that is present but null is no entry).
 		proposerConfig = e.DefaultConfig
 	}
 	if proposerConfig == nil {
